@@ -324,13 +324,13 @@ class Program:
     def func(self, qualname: str) -> FuncInfo:
         """Look up by ``module:Qual.name``; ANALYSIS-ERROR when the role vanished."""
         for f in self.all_funcs:
-            if f.qualname == qualname:
+            if f.qualname == qualname and "overload" not in f.decorators:
                 return f
         raise AnalysisError(f"role function {qualname} not found")
 
     def find_func(self, qualname: str) -> Optional[FuncInfo]:
         for f in self.all_funcs:
-            if f.qualname == qualname:
+            if f.qualname == qualname and "overload" not in f.decorators:
                 return f
         return None
 
